@@ -59,6 +59,10 @@ CLAIMS.update({
         text="The unit every output node comes from — one call of the private CompressFromHash::build_node, driven through an add-only hook from an ARBITRARY valid table (1-3 rows: all keys, extension sets, payloads), availability subset containing the seed, strandedness and seed row — is proved against a reference walk written in string terms: the node sequence has one base per member beyond the first; the seed and every walked k-mer sit at exactly the offset of their position in the chain, in their walked orientation (so consecutive members overlap by K-1 and follow the extension that was walked); no row outside the chain is consumed and every chain member leaves the availability set (hence a k-mer can enter only one node); the payload equals the caller's reduction over exactly the member rows (commutative test reduction, and the payload-equality spec); the node's extensions are the outward extensions of its two end k-mers in node orientation. extend_kmer (the whole walk) is decided separately." + PART + "the outer seed loop of compress_kmers (`for every still-available row: build_node, add`), BaseGraph::add of a symbolic-length sequence into the packed store (its one-step form is decided under C14), compress_kmers_no_exts (HashSet) and the finished graph are NOT executed: compress_kmers on 2 rows exceeds 30 GB in CBMC.",
         note="Bounds: tables of 2-3 rows over Kmer4 (quick), 1-3 rows over Kmer3/4 and 2 rows over Kmer5/6 (thorough). boomphf = model M1. Assumed table validity: distinct keys, canonical when unstranded, reciprocal extension on every examined link (the code's documented unreachable panic). Scratch deque pre-reserved by the harness (capacity unobservable) with VecDeque::grow stubbed to an asserted-unreachable (S6). Stubs S1, S2, S6.",
         ref="DESIGN.md §5 C01"),
+    "C20": dict(
+        text="GFA and JSON export of 1- and 2-node graphs (all bases, all 256 extension sets per node, stranded and unstranded) into a streaming oracle sink, decided against a reference adjacency matrix computed in string terms: GFA — header, every node listed exactly once with its exact sequence, every L line well formed with overlap K-1 and denoting an adjacency of the graph with the right orientation signs, every adjacency (self-links on either side included) listed, and listed once unless it touches a palindromic single-k-mer node; JSON — token-level well-formedness (a value only after [ { , : ; a comma only after a value or a close and never before a close; balanced brackets), every node listed once, the link objects are exactly the right-going adjacencies, each once." + PART + "serde round-trips of k-mers / strings / extension sets / graphs (serde_json and bincode on symbolic data), DOT export, tags, file I/O, graphs with >= 3 nodes or ids >= 8, and the empty graph are NOT covered; the 2-node JSON query needs ~20 GB and runs in the thorough tier only (the quick tier decides JSON on 1-node graphs and GFA on 1- and 2-node graphs).",
+        note="Bounds: K in {3,4}; node lengths K..K+1; 1-2 nodes. Graph validity assumed: node-end k-mers pairwise distinct per side (MPHF precondition; model M1), extensions reciprocal (GFA only). Stubs S1, S2, S5 (String::push ASCII, asserted), S7 (SmallVec spill, asserted unreachable), S8 (<usize as Display>::fmt for values < 8, asserted, case split into literals), S4b (Formatter::pad over the alphabet ACGT+-LR, asserted, case split into literals); payload rendered as JSON null. CBMC per-loop bound for core::fmt::write's template loop (--unwindset, 12) with global unwind 7; unwinding assertions on; run with --output-format old (CBMC's plain result list) and replayed natively from CBMC's text trace. Two genuine defects were found by these checks and fixed in /repo (known_findings.txt).",
+        ref="DESIGN.md §5 C20"),
     "C02": dict(
         text="The join decision every node is built from — one call of the private try_extend_kmer, driven through an add-only hook from an ARBITRARY valid table (1-3 rows, all keys/extension sets/payloads), availability subset, strandedness, direction and start row — is proved to return Unique(next, dir, exts) exactly when the link is the sole extension on both facing sides, joins two distinct non-palindromic k-mers, the target is present and available and the join predicate (always-true and payload-equality) accepts; otherwise Terminal with the walking side's extensions. The growth loop itself (extend_kmer, via a second hook) is proved, on 2-3-row tables, to continue exactly while that decision says Unique, to visit the rows the reference walk visits, to remove exactly those rows from the availability set and to report the last k-mer's walking-side extensions — so a node ends only where no joinable link is left (maximality), and build_node (C01) walks left then right from the seed." + PART + "the outer seed loop, cycle cutting on whole inputs and uniqueness of the global decomposition are NOT executed (compress_kmers on 2 rows > 30 GB in CBMC).",
         note="Bounds: tables of 1-3 rows over Kmer4 / 2 rows over Kmer3 (quick), also Kmer2,5,6 with 3 rows (thorough). boomphf = model M1 (key-verified lookup). Assumed table validity: distinct keys, canonical when unstranded, reciprocal extension on the examined link (the code's documented unreachable panic). Stubs S1, S2.",
@@ -84,7 +88,7 @@ CLAIMS.update({
         note="Bounds: quick tier N == k (one k-mer per read; k in {3,4}); thorough N = k+1..k+2 (up to 3 k-mers; symbolic permutation with N=k+1 needs > 12 GB and runs under the 30 GB thorough cap, reported inconclusive if it does not fit). P=Kmer2, piece container Lmer1 only. Stubs S1, S2. Exts::from_slice_bounds separately for all positions of 6-base reads.",
         ref="DESIGN.md §4 C08"),
     "C09": dict(
-        text="The node-level join decision — one call of the private try_extend_node via the add-only hook on 2-3-node graphs (all bases, extension sets, payloads, availability/censor subsets, strandedness, direction, start node): Unique(node, outgoing side, exts) iff one extension, not a single-k-mer palindrome, target resolves, is available, join accepted, exactly one extension on its incoming side; fix_exts/get_valid_exts leave no extension pointing at a removed or absent node; sequence_of_path spells two nodes with K-1 overlap and reverse-complements right-entered nodes." + PART + "idempotence of re-compression, equality with the direct route and payload folding over whole paths are results of the heap loops and are NOT covered.",
+        text="The node-level join decision — one call of the private try_extend_node via the add-only hook on 2-3-node graphs (all bases, extension sets, payloads, availability/censor subsets, strandedness, direction, start node): Unique(node, outgoing side, exts) iff one extension, not a single-k-mer palindrome, target resolves, is available, join accepted, exactly one extension on its incoming side; fix_exts/get_valid_exts leave no extension pointing at a removed or absent node; sequence_of_path spells two nodes with K-1 overlap and reverse-complements right-entered nodes. Round 2: the growth loop extend_node and the merged-node builder build_node of the re-compressor (hooks) on 2-node graphs against a reference walk in string terms: the walk continues exactly while the decision says Unique, consumes exactly the walked nodes, the merged sequence is the members' sequences in reading orientation overlapped by K-1, the node path, the payload fold (order-independent, non-associative test reduction) and the merged extensions are the reference ones." + PART + "the outer seed loop of compress_graph, idempotence of re-compression and equality with the direct route are properties of whole runs and are NOT executed.",
         note="Bounds: K in {3,4}, node lengths K..K+1, 2 nodes (quick) / 3 nodes (thorough). Model M1; distinct node-end k-mers per side; the examined extension resolves and its target has >= 1 facing extension (the code's documented panics otherwise). Stubs S1, S2.",
         ref="DESIGN.md §5 C09"),
 })
@@ -92,7 +96,6 @@ CLAIMS.update({
 NOT_APPLICABLE = {
     "C04": "whole-pipeline equivalence (msp -> per-shard filter -> compress -> combine -> finish -> recompress, twice); every stage but the first is individually beyond the solver's reach (measured, DESIGN §8); its local ingredients are decided under C08/C05/C02/C09",
     "C19": "Kani has no thread model and rayon's pool cannot be encoded; the MPHF builder is float-sized and wyhash-driven with collision-dependent levels; 10^5-node graphs are far outside any bound",
-    "C20": "core::fmt / serde_json formatting and parsing of symbolic data: write_gfa on a one-node graph into a fixed-array sink ran past 6 GB in 190 s; serialisation is a listed weak target for this technique",
 }
 
 PENDING = {}
@@ -129,7 +132,7 @@ def build():
             guard="cargo feature verif_hooks",
             enable="path dependency debruijn = { path = \"/repo\", features = [\"verif_hooks\"] } in /verif/harness/Cargo.toml",
             baseline_off_cmd="cd /repo && cargo test --offline --no-fail-fast",
-            source_commits=["870654343f75018d0b0ba9b1900e6f658af21e11"],
+            source_commits=["870654343f75018d0b0ba9b1900e6f658af21e11", "2d6811c3a7913580578d590faa2fc3aa1cb75dd5", "783c0ec2e6faed1f1fbc956e44fe1cdee66e2dcc"],
             add_only=True,
         ),
         engines=[
